@@ -859,16 +859,20 @@ var FieldWriteMap = `
 {{- $isStrKey := .KeyCtx.Type | IsStrType -}}
 {{- $isBaseVal := .ValCtx.Type | IsBaseType -}}
 {{- $curFieldMask := .FieldMask -}}
-	{{- if and Features.WithFieldMask (or $isStrKey $isIntKey) }}
-	if !{{.FieldMask}}.All() {
+	{{- if Features.WithFieldMask}}
+	if !{{.FieldMask}}.All() || ({{.FieldMask}} != nil && {{.FieldMask}}.IsBlack()) {
 		l := len({{.Target}})
-		for k := range {{.Target}} {
+		for {{if or $isIntKey $isStrKey}}k := {{end}}range {{.Target}} {
 			{{- if $isIntKey}}
 			if _, ex := {{.FieldMask}}.Int(int(k)); !ex {
 				l--
 			}
 			{{- else if $isStrKey}}
 			if _, ex := {{.FieldMask}}.Str(string(k)); !ex {
+				l--
+			}
+			{{- else}}
+			if _, ex := {{.FieldMask}}.Int(0); !ex {
 				l--
 			}
 			{{- end}}
@@ -933,7 +937,7 @@ var FieldWriteSet = `
 {{- $isBaseVal := .ValCtx.Type | IsBaseType -}}
 {{- $curFieldMask := .FieldMask -}}
 		{{- if Features.WithFieldMask}}
-		if !{{.FieldMask}}.All() {
+		if !{{.FieldMask}}.All() || ({{.FieldMask}} != nil && {{.FieldMask}}.IsBlack()) {
 			l := len({{.Target}})
 			for i, n := 0, l; i < n; i++ {
 				if _, ex := {{.FieldMask}}.Int(i); !ex {
@@ -1003,7 +1007,7 @@ var FieldWriteList = `
 {{- $isBaseVal := .ValCtx.Type | IsBaseType -}}
 {{- $curFieldMask := .FieldMask -}}
 	{{- if Features.WithFieldMask}}
-	if !{{.FieldMask}}.All() {
+	if !{{.FieldMask}}.All() || ({{.FieldMask}} != nil && {{.FieldMask}}.IsBlack()) {
 		l := len({{.Target}})
 		for i, n := 0, l; i < n; i++ {
 			if _, ex := {{.FieldMask}}.Int(i); !ex {
